@@ -236,14 +236,17 @@ def classify_records(records: list[tuple], requested_ids=(), tainted_ids=(), sha
                 # same-tick burst of conflicting requests (C11.conflicting_requests_in_one_tick): the request was marked
                 # cancelled while the instance of another request was finalized; it keeps executing and concludes again
                 return "cancelled_request_keeps_executing_after_same_tick_conflict", desc
-            older = [(o, on) for o, on in insts[:k] if "started" in on]
+            older = [(o, on) for o, on in insts[:k] if len(on) > 1]     # older instances that got beyond 'created'
             booked_before_start = names[:first] == ["created"] and names[first] in ("completed", "cancelled")
             second_conclusion = k == len(insts) - 1 and tail[0] in ("completed", "cancelled") and \
                 any("uodcommandset" in on or "internalenginecommandset" in on for _, on in older)
-            if older and (booked_before_start or second_conclusion):
+            older_open = [on for _, on in older if not any(n in CONCLUSIVE for n in on)]
+            concluded_for_open_older = bool(older_open) and names[first] in ("completed", "cancelled")
+            if older and (booked_before_start or second_conclusion or concluded_for_open_older):
                 # the conclusion of another (older, really executing) instance of this line was booked on the record's
-                # newest instance id (Tracking.mark_completed/mark_cancelled use record.last_instance_id): either before
-                # that instance has started, or as a second conclusion after its own
+                # newest instance id (Tracking.mark_* use record.last_instance_id): either before that instance has
+                # started, or as a second conclusion after its own, or while the older instance (e.g. of a concurrently
+                # running stale Alarm handler) is still open and the newest instance goes on recording states
                 return "conclusion_recorded_on_newer_instance_of_same_line", \
                     desc + f"; older instance of the same record: {older[-1][1]}"
             return None, desc
@@ -370,6 +373,14 @@ def _classify_missing(rig, n):
     names = [s.state_name.value for s in rec.states]
     if "completed" not in names:
         return "C15.completed_node_without_completed_state"
+    # The record has a completed state but no completed item: the state follows the conclusion of its instance and is
+    # skipped when the run log is rendered (before the run log tolerated such states it raised instead). Name the cause
+    # with the same record classifier that is used for an unproducible run log, restricted to this node's record.
+    own = [r for r in records_plain(rig) if r[2] == n.id]
+    suffix, _ = classify_records(own, (), tainted_by_bursts(rig) if _sched_hook else (),
+                                 shared_instance_ids() if _sched_hook else ())
+    if suffix is not None:
+        return "C15." + suffix
     return None
 
 
